@@ -238,7 +238,14 @@ def other_foreign(st, zone_list, locals_):
         # (2038 and later, both halves of the year) and before standard time (local mean time with seconds)
         beyond = [datetime.datetime(y, m, 15, 12, 0, 0) for y in (2038, 2040, 2045, 2099) for m in (1, 7)] + \
                  [datetime.datetime(1890, 1, 1, 12, 0, 0), datetime.datetime(1850, 6, 1, 0, 0, 0), datetime.datetime(1901, 12, 13, 20, 45, 52)]
-        for loc in list(locals_) + beyond:
+        # ... and, for a zone of another tz database, the neighbourhood of every transition of that very zone: both passes through a
+        # repeated hour are distinct instants that differ in `fold` only (PEP 495), which the value's tzinfo honours
+        own = []
+        if label.startswith('zoneinfo:'):
+            for t in transitions(label.split(':', 1)[1], True)[-8:]:
+                for d in DELTAS + [datetime.timedelta(minutes=59, seconds=59), datetime.timedelta(minutes=-59, seconds=-59)]:
+                    own.append(t + d)
+        for loc in list(locals_) + beyond + own:
             for utc in (loc.replace(tzinfo=UTC),):
                 try:
                     dt = utc.astimezone(tz)
